@@ -48,8 +48,8 @@ PROPS = {
                             R("edit", ["reverse", "complement", "revcomp"], [7], 1, False)]}),
     "C11": dict(
         owns=lambda kind, op, rule: rule in ("mutated", "probe-panic", "law-raw", "identity"),
-        tiers={"quick": [R("pure", [], [6], 1, purelen=1), R("pure", [], [6], 3, purelen=2)],
-               "thorough": [R("pure", [], [6], 1, purelen=2), R("pure", [], [6], 8, mc=False, purelen=3),
+        tiers={"quick": [R("pure", [], [6], 1, purelen=1), R("pure", [], [6], 3, purelen=2), R("puremerge", [], [6], 1, mc=False, purelen=1)],
+               "thorough": [R("pure", [], [6], 1, purelen=2), R("puremerge", [], [6], 1, mc=False, purelen=2), R("pure", [], [6], 8, mc=False, purelen=3),
                             R("pure", [], [6], 160, mc=False, purelen=4)]}),
     "C12": dict(
         owns=lambda kind, op, rule: (op == "repair" or (op == "law" and kind in ("cutsrepair", "reptab")))
@@ -93,7 +93,7 @@ CHECK_DEADLOCK FALSE
 
 
 def case_kind(case_id):
-    parts = case_id.split(".")
+    parts = case_id.split("#")[0].split(".")
     return parts[2] if len(parts) > 2 else "?"
 
 
@@ -121,7 +121,61 @@ def replay_cases(work, harness, cases_file, tag, shards=NCPU):
     return n, events, ops, verdicts, states
 
 
+def cli_clause(prop):
+    """The command-line clause of a property (its statement / observe_at list names command output)."""
+    from fam_cli import cli_family
+    from fam_stream import stream_family
+    return {"C02": lambda: cli_family("cli-insert", ["insert", "infix"], quick_stride=2),
+            "C03": lambda: cli_family("cli-delete", ["delete", "extract", "split"], quick_stride=4),
+            "C04": lambda: cli_family("cli-rotate", ["rotate", "split"], quick_stride=2),
+            "C05": lambda: stream_family("cli-reverse", ["reverse", "complement"]),
+            "C12": lambda: stream_family("cli-repair", ["repair"])}.get(prop, lambda: None)()
+
+
 def run(prop, tier, seed, replay=None):
+    extra = cli_clause(prop)
+    if replay and extra is not None:
+        with open(replay) as fh:
+            first = decode_case_line(fh.readline())
+        if "multisite" in first or first.get("fam") == "stream":
+            import fam_generic
+            return fam_generic.run_family(extra, prop, tier, seed, replay)
+    rc = run_library(prop, tier, seed, replay)
+    if replay or extra is None:
+        return rc
+    # the command-line clause: same loop on the gts binary; its coverage is merged into the evidence file
+    import fam_generic
+    import vcore
+    t1 = time.time()
+    fam_generic._SINK = []
+    try:
+        rc2 = fam_generic.run_family(extra, prop, tier, seed)
+        parts = fam_generic._SINK
+    finally:
+        fam_generic._SINK = None
+    path = os.path.join(vcore.VERIF, vcore.EVIDENCE_DIR, prop + ".json")
+    with open(path) as fh:
+        ev = json.load(fh)
+    cov, nviol, assumptions = parts[0]
+    cli = dict(cov)
+    cli.pop("samples", None)
+    ev["coverage"]["cli_clause"] = cli
+    for k in ("states", "transitions", "cases", "events", "traces_validated_against_impl", "verdicts_total", "verdicts_owned"):
+        ev["coverage"][k] = ev["coverage"].get(k, 0) + cov.get(k, 0)
+    ev["coverage"]["known_findings_met"] = sorted(set(ev["coverage"].get("known_findings_met", [])) | set(cov.get("known_findings_met", [])))
+    ev["coverage"]["rule"] = ev["coverage"].get("rule", "") + " || " + cov.get("rule", "")
+    ev["violations"] = ev.get("violations", 0) + nviol
+    ev["wall_s"] = round(ev.get("wall_s", 0) + time.time() - t1, 2)
+    ev["assumptions"] = sorted(set(ev.get("assumptions", [])) | set(assumptions))
+    tmp = path + ".tmp"
+    with open(tmp, "w") as fh:
+        json.dump(ev, fh, indent=1, sort_keys=True)
+        fh.write("\n")
+    os.replace(tmp, path)
+    return max(rc, rc2)
+
+
+def run_library(prop, tier, seed, replay=None):
     t0 = time.time()
     conf = PROPS[prop]
     work = Work(prop)
@@ -218,7 +272,8 @@ def finish(prop, tier, seed, conf, listed, known, work, harness, verdicts, cov, 
     # reproduce each violating case alone before reporting it (at most 5)
     for cid in sorted(viol)[:5]:
         own = [v["_file"] for v in viol[cid] if "_file" in v][:1]
-        c = find_case(own + [f for f in case_files if f not in own], cid)
+        # "<id>#s" is the shared-values run of case <id>
+        c = find_case(own + [f for f in case_files if f not in own], cid.split("#")[0])
         if c is None:
             continue
         one = work.path("repro.ndjson")
